@@ -141,11 +141,23 @@ def pinned_reach(f, env, genv=None):
     return reach, fo
 
 
+from .frontend import AnalysisBroken
 NORETURN = {'exit', 'abort', '__assert_fail', 'os_abort', '_exit'}
 
 
 # ======================================================================================
 # flag-tuple dataflow
+
+class FlagTuple(dict):
+    """name -> abstract value; asking for a flag the function does not have is an anchor failure (analysis broken),
+    never a silent None that a rule could mistake for a value"""
+
+    def __missing__(self, k):
+        raise AnalysisBroken('flag local `%s` not found in the analysed function (renamed or removed anchor)' % k)
+
+    def get(self, k, default=None):
+        return self[k]
+
 
 class FlagAnalysis:
     """forward dataflow over the set of possible tuples of a few int locals ("flags").
@@ -318,7 +330,7 @@ class FlagAnalysis:
         res = set()
         for tup in self.IN.get(ins.block, ()):
             res.add(self.transfer_block(ins.block, tup, upto=ins.id))
-        return [dict(zip(self.names, t)) for t in res]
+        return [FlagTuple(zip(self.names, t)) for t in res]
 
     def reachable(self, ins):
         return bool(self.IN.get(ins.block))
